@@ -56,6 +56,8 @@ pub enum Act {
     Forward { gate: u32 },
     /// wake task `to` of this module (through its inbox channel)
     NotifyTask { to: u16 },
+    /// change the panic stereotype of the module from inside a callback
+    SetCatching { v: bool },
 }
 
 #[derive(Serialize, Deserialize, Clone, Debug, PartialEq, Eq, Hash)]
@@ -123,7 +125,13 @@ pub struct ModSpec {
     /// create this node through a scoped builder block of its grandparent with the relative path "parent.name"
     #[serde(default)]
     pub scoped_build: bool,
+    /// (C09) this module requests a restart and panics in the same event: its panic is an expected error of the run
+    #[serde(default)]
+    pub crash_reboot: bool,
 }
+
+pub struct SendTok(pub crate::bodies::Token);
+unsafe impl Send for SendTok {}
 
 /// A module block that adds one node below its scope, addressed by a relative (possibly dotted) path.
 pub struct ScopedAdder {
@@ -180,6 +188,10 @@ pub struct NetProgram {
     /// links with equal channel metrics are connected with one and the same `ChannelRef` object
     #[serde(default)]
     pub share_channels: bool,
+    /// extra top-level nodes built from des's own module blocks, each holding a token in its task / state:
+    /// 1 = AsyncFn::new, 2 = AsyncFn::failable, 3 = AsyncFn::io + require_join, 4 = HandlerFn
+    #[serde(default)]
+    pub blocks: Vec<u8>,
 }
 
 // ---------------------------------------------------------------- trace
@@ -417,6 +429,11 @@ impl ScriptMod {
             Act::Forward { .. } => {}
             Act::NotifyTask { to } => {
                 crate::asy::notify_task(self.idx, *to as usize);
+            }
+            Act::SetCatching { v } => {
+                let mut st = current().stereotyp();
+                st.on_panic_catch = *v;
+                current().set_stereotyp(st);
             }
         }
         true
@@ -809,6 +826,7 @@ pub fn sanitize_order(prog: &NetProgram) -> Vec<usize> {
 pub fn normalise(p: &NetProgram) -> NetProgram {
     let mut q = p.clone();
     q.modules.truncate(200);
+    q.blocks.truncate(8);
     let n = q.modules.len();
     for i in 0..n {
         let par = q.modules[i].parent;
@@ -917,6 +935,10 @@ pub fn run_net(prog: &NetProgram, opts: &RunOpts) -> NetResult {
         let mk_stack = move || {
             let m = with_ctx(|c| c.building).unwrap_or(0);
             let mut st = ProcessingStack::default();
+            if m >= 254 {
+                // des's own module blocks and rejected nodes get no scripted elements
+                return st;
+            }
             for (i, p) in gp.gstack.iter().enumerate() {
                 st.append(ScriptPe { run_id: current_run(), m, id: i as u16, spec: p.clone(), prog: gp.clone(), token: crate::bodies::Token::pe() });
             }
@@ -998,6 +1020,44 @@ pub fn run_net(prog: &NetProgram, opts: &RunOpts) -> NetResult {
                 }
             }
             refs[mi] = mref;
+        }
+        // des's own module blocks (their tasks / closures own ledger tokens)
+        for (bi, kind) in prog.blocks.iter().enumerate().take(8) {
+            use des::net::blocks::{AsyncFn, HandlerFn};
+            let name = format!("blk{bi}");
+            with_ctx(|c| c.building = 254);
+            let gen_ok = |mut rx: tokio::sync::mpsc::Receiver<Message>| {
+                let tok = SendTok(crate::bodies::Token::task());
+                async move {
+                    let _t = tok;
+                    while let Some(m) = rx.recv().await {
+                        drop(m);
+                    }
+                }
+            };
+            let gen_res = |mut rx: tokio::sync::mpsc::Receiver<Message>| {
+                let tok = SendTok(crate::bodies::Token::task());
+                async move {
+                    let _t = tok;
+                    while let Some(m) = rx.recv().await {
+                        drop(m);
+                    }
+                    Ok::<(), std::io::Error>(())
+                }
+            };
+            match kind % 5 {
+                1 => sim.node(name.as_str(), AsyncFn::new(gen_ok)),
+                2 => sim.node(name.as_str(), AsyncFn::failable(gen_res)),
+                3 => sim.node(name.as_str(), AsyncFn::io(gen_res)),
+                4 => {
+                    let tok = SendTok(crate::bodies::Token::new_opt().unwrap());
+                    sim.node(name.as_str(), HandlerFn::new(move |m: Message| {
+                        let _ = &tok;
+                        drop(m);
+                    }));
+                }
+                _ => {}
+            }
         }
         // links
         let gate_of = |m: usize, g: u32| -> Option<GateRef> {
